@@ -104,7 +104,8 @@ func c11Run(r *Run, l *Local, cs c11Case, mw *cors.Middleware) {
 	spy := &spyHandler{prog: cs.Handler}
 	w := newRW()
 	req := q.httpReq()
-	presetMW{cs.Preset, mw.Wrap(spy)}.ServeHTTP(w, req)
+	w.inner = spy
+	presetMW{cs.Preset, wrappedOnce(mw)}.ServeHTTP(w, req)
 	got := w.obs(spy.calls)
 	l.evals++
 	report := func(key, msg string) {
@@ -253,7 +254,27 @@ func TestVerif_C11(t *testing.T) {
 			}
 			spec = prod[l.Batch]
 			for d := 0; d < 2; d++ {
-				mw, err := cors.NewMiddleware(spec.Config())
+				// the handler is wrapped ONCE, in the middleware's first state - which for two thirds of the
+				// configurations is a passthrough or another configuration (Wrap must not freeze that state)
+				var mw *cors.Middleware
+				var err error
+				switch (l.Batch + d) % 3 {
+				case 0:
+					mw, err = cors.NewMiddleware(spec.Config())
+				case 1:
+					mw = new(cors.Middleware)
+					wrappedOnce(mw)
+					c := spec.Config()
+					err = mw.Reconfigure(&c)
+				case 2:
+					mw, err = cors.NewMiddleware(viaOther)
+					if err == nil {
+						wrappedOnce(mw)
+						mw.Reconfigure(nil)
+						c := spec.Config()
+						err = mw.Reconfigure(&c)
+					}
+				}
 				if err != nil {
 					return
 				}
@@ -273,6 +294,7 @@ func TestVerif_C11(t *testing.T) {
 					return
 				}
 				mw.SetDebug(d == 1)
+				wrappedOnce(mw) // wrapped while configured, then turned into a passthrough
 				if err := mw.Reconfigure(nil); err != nil {
 					r.Violate("reconfigure-nil-error", "reference-run", fmt.Sprintf("Reconfigure(nil) returned %v", err), c11Case{Passthrough: pass})
 				}
